@@ -246,6 +246,8 @@ def _norms_world(M, case):
             if abs(tot - vol) > 1e-12 * vol:
                 raise OracleFail('volume-factor', dict(got=tot, want=vol))
             probes['field_one'] = 1
+        if case.get('sign', 'mixed') != 'mixed' and not case.get('one'):
+            probes['field_' + case['sign'] + '_everywhere'] = 1
         if not case['uniform']:
             probes['nonuniform_r_v'] = 1
         if case['root'] != 0:
